@@ -102,6 +102,21 @@ func TestGovcHarness_commonPrefix(t *testing.T) {
 			}
 		}
 	}
+	// a directory, something nested in it, and a sibling whose name extends it with a character sorting before,
+	// at or after the separator: every order of the three
+	for _, base := range all {
+		if base == "/" {
+			continue
+		}
+		for _, ext := range []string{"-v2", ".old", "0", "b", "_x"} {
+			trio := []string{base, base + "/sub", base + ext}
+			for _, perm := range [][3]int{{0, 1, 2}, {0, 2, 1}, {1, 0, 2}, {1, 2, 0}, {2, 0, 1}, {2, 1, 0}} {
+				if report([]string{trio[perm[0]], trio[perm[1]], trio[perm[2]]}) {
+					return
+				}
+			}
+		}
+	}
 	if os.Getenv("GOVC_TIER") == "thorough" {
 		for _, a := range all {
 			for _, b := range all {
